@@ -401,7 +401,7 @@ PROPS["C17"] = {
     "rule": ("entity: j5sgen.Draw(EntityOnly) with 1-2 files each holding an entity. Non-trivial: >=2 keys with different flag combinations, or >=1 event and >=1 summary. Distinct by hash of the sources."),
     "assumptions": ["README entity section; the statement of C17"],
     "lanes": [
-        lane("TestEntity", "entity", 200, 1200, shards=16, must_classes=["shard-key", "foreign-key", "tenant-key", "events:0", "summaries:2", "commands:2", "command-options"]),
+        lane("TestEntity", "entity", 200, 1200, shards=16, must_classes=["shard-key", "foreign-key", "tenant-key", "events:0", "summaries:2", "commands:2", "command-options", "entity-nested-schema"]),
     ],
 }
 
